@@ -66,7 +66,8 @@ class PedanticBufferWriter {
     if (length_bytes > (size_ - index_))
       return ErrorStatus::WriteLimitReached;
 
-    std::memcpy(&buffer_[index_], begin, length_bytes);
+    if (length_bytes > 0)
+      std::memcpy(&buffer_[index_], begin, length_bytes);
     index_ += length_bytes;
     return {};
   }
